@@ -112,10 +112,11 @@ func (e lifeEnd) String() string {
 }
 
 type lifeResult struct {
-	end   lifeEnd
-	err   string
-	node  *reg.Node
-	tasks []string
+	end         lifeEnd
+	err         string
+	node        *reg.Node
+	tasks       []string
+	resumeAsked []uint64 // real lives: fromBlock of every eth_getLogs the node issued
 }
 
 // buildChain fixes the chain content of a history: the logs are built along the reference
@@ -416,7 +417,8 @@ type execResult struct {
 	problem    string // recovery failed etc.
 	inferior   string // "" if the ErrInferiorBlock guard held
 	midKeys    []string // canonical surviving database at every restart
-	midPartial bool
+	asked      []uint64 // real lives: block numbers the node asked the chain for
+	real       bool
 }
 
 type runner struct {
@@ -443,7 +445,8 @@ var reopenEvery = 150
 
 // execute runs the history with the given faults (fault i is planted in life i), restarts after
 // every life that did not complete, and observes the final state.
-func (r *runner) execute(h *history, blocks []executionclient.BlockLogs, stepBlk []int, faults []fault) execResult {
+// Lives with index >= realFrom go through the node's real setupEventHandling (realFrom < 0: none).
+func (r *runner) execute(h *history, blocks []executionclient.BlockLogs, stepBlk []int, faults []fault, realFrom int) execResult {
 	w := &world{fx: r.fx, h: h, base: r.freshDB(), clk: &reg.Clock{Slot: reg.StartSlot}, blocks: blocks, stepBlk: stepBlk, envDone: make([]bool, len(h.steps))}
 	res := execResult{faults: faults}
 	var last lifeResult
@@ -453,7 +456,12 @@ func (r *runner) execute(h *history, blocks []executionclient.BlockLogs, stepBlk
 		if life < len(faults) {
 			ctl.At, ctl.Mode = faults[life].k, faults[life].mode
 		}
-		last = w.life(ctl)
+		if realFrom >= 0 && life >= realFrom {
+			last = w.realLife(ctl)
+			res.asked = append(res.asked, last.resumeAsked...)
+		} else {
+			last = w.life(ctl)
+		}
 		res.ends = append(res.ends, last.end)
 		res.errs = append(res.errs, last.err)
 		res.logs = append(res.logs, ctl.Log)
@@ -512,8 +520,9 @@ func stepsDesc(h *history) []string {
 }
 
 type job struct {
-	hi     int
-	faults []fault
+	hi       int
+	faults   []fault
+	realFrom int
 }
 
 func main() {
@@ -546,14 +555,14 @@ func main() {
 		h := &hs[i]
 		in := &hinfo{}
 		in.blocks, in.stepBlk = buildChain(fx, h)
-		in.base = r0.execute(h, in.blocks, in.stepBlk, nil)
+		in.base = r0.execute(h, in.blocks, in.stepBlk, nil, -1)
 		if in.base.problem != "" || in.base.inferior != "" || len(in.base.ends) != 1 {
 			r.Violate("uninterrupted "+h.name, "the uninterrupted run of the history fails: "+in.base.problem+in.base.inferior, "c12",
 				map[string]interface{}{"history": h.name, "steps": stepsDesc(h), "faults": []string{}}, in.base.errs, nil)
 			continue
 		}
 		// determinism of the call log (the fault points are indexes into it)
-		again := r0.execute(h, in.blocks, in.stepBlk, nil)
+		again := r0.execute(h, in.blocks, in.stepBlk, nil, -1)
 		if !equalLogs(again.logs[0], in.base.logs[0]) {
 			for i := range again.logs[0] {
 				if i < len(in.base.logs[0]) && again.logs[0][i] != in.base.logs[0][i] {
@@ -569,7 +578,7 @@ func main() {
 			cut := *h
 			cut.steps = h.steps[:h.faultFrom]
 			cb, cs := buildChain(fx, &cut)
-			cr := r0.execute(&cut, cb, cs, nil)
+			cr := r0.execute(&cut, cb, cs, nil, -1)
 			n := len(cr.logs[0])
 			if n > len(in.base.logs[0]) || !equalLogs(cr.logs[0], in.base.logs[0][:n]) {
 				ev.Fatal("history %q: the call log of the prefix is not a prefix of the call log", h.name)
@@ -588,6 +597,8 @@ func main() {
 	nontrivialSites := map[string]bool{}
 	partial := 0
 	orphanRuns := 0
+	realRuns := 0
+	asked := map[string]int{}
 	var bounds []string
 
 	report := func(h *history, in *hinfo, x execResult) {
@@ -601,25 +612,44 @@ func main() {
 			}
 			fdesc = append(fdesc, fmt.Sprintf("life %d: %s at call %d (%s)", i+1, f.mode, f.k, site))
 		}
-		first := x.faults[0]
-		site0 := x.sites[0]
-		if !equalLogs(x.logs[0], in.base.logs[0]) {
-			nontrivial[fmt.Sprintf("%s|%d|%s", h.name, first.k, first.mode)] = true
-			nontrivialSites[fmt.Sprintf("%s|%s|%s", h.name, site0, first.mode)] = true
+		var first fault
+		site0 := ""
+		if len(x.faults) > 0 {
+			first, site0 = x.faults[0], x.sites[0]
 		}
 		label := fmt.Sprintf("%s -> %s", first.mode, x.ends[0])
 		if len(x.faults) > 1 && len(x.ends) > 1 {
 			label = fmt.Sprintf("%s -> %s ; %s -> %s", first.mode, x.ends[0], x.faults[1].mode, x.ends[1])
 		}
-		outcomes[label]++
-		if first.mode == reg.ErrorReturn && x.ends[0] == completed && x.fired[0] {
-			swallowed[site0]++
+		realFrom := -1
+		if x.real {
+			realFrom = 1
+			if len(x.faults) == 0 {
+				realFrom = 0
+			}
+			label = "real setupEventHandling: " + label
+			realRuns++
+			for _, a := range x.asked {
+				asked[fmt.Sprint(a)]++
+			}
+		} else {
+			if !equalLogs(x.logs[0], in.base.logs[0]) {
+				nontrivial[fmt.Sprintf("%s|%d|%s", h.name, first.k, first.mode)] = true
+				nontrivialSites[fmt.Sprintf("%s|%s|%s", h.name, site0, first.mode)] = true
+			}
+			if first.mode == reg.ErrorReturn && x.ends[0] == completed && x.fired[0] {
+				swallowed[site0]++
+			}
+			siteHist[first.mode.String()+" "+site0]++
 		}
-		siteHist[first.mode.String()+" "+site0]++
+		outcomes[label]++
 		trace := map[string]interface{}{"history": h.name, "own_key": fmt.Sprintf("K%d", h.own), "steps": stepsDesc(h), "faults": fdesc,
-			"fault_points": faultsJSON(x.faults), "life_ends": fmt.Sprint(x.ends), "errors": x.errs}
+			"fault_points": faultsJSON(x.faults), "life_ends": fmt.Sprint(x.ends), "errors": x.errs, "real_from": realFrom}
 		sig := func(class string) string {
 			var s []string
+			if x.real {
+				class = "real-resume " + class
+			}
 			for i, f := range x.faults {
 				st := ""
 				if i < len(x.sites) {
@@ -671,7 +701,7 @@ func main() {
 				if m == reg.ErrorReturn && reg.NoErrorResult(in.base.logs[0][k-1]) {
 					continue
 				}
-				jobs = append(jobs, job{hi, []fault{{k, m}}})
+				jobs = append(jobs, job{hi, []fault{{k, m}}, -1})
 			}
 		}
 		results := runJobs(r, fx, hs, func(hi int) ([]executionclient.BlockLogs, []int) { return infos[hi].blocks, infos[hi].stepBlk }, jobs, nWorkers)
@@ -693,7 +723,7 @@ func main() {
 								if m == reg.ErrorReturn && reg.NoErrorResult(x.logs[1][k2-1]) {
 									continue
 								}
-								second = append(second, job{hi, []fault{jobs[ji].faults[0], {k2, m}}})
+								second = append(second, job{hi, []fault{jobs[ji].faults[0], {k2, m}}, -1})
 							}
 						}
 					}
@@ -703,6 +733,26 @@ func main() {
 		partial += len(seenRestart)
 		mu.Unlock()
 		single := len(jobs)
+		// ---- the same recoveries through the node's real setupEventHandling (one per distinct
+		// surviving database) and the whole history through it without any fault ----
+		realJobs := []job{{hi, nil, 0}}
+		seenReal := map[string]bool{}
+		for ji, x := range results {
+			if x != nil && len(x.midKeys) > 0 && !seenReal[x.midKeys[0]] {
+				seenReal[x.midKeys[0]] = true
+				realJobs = append(realJobs, job{hi, jobs[ji].faults, 1})
+			}
+		}
+		if !r.Expired() {
+			resultsR := runJobs(r, fx, hs, func(hi int) ([]executionclient.BlockLogs, []int) { return infos[hi].blocks, infos[hi].stepBlk }, realJobs, nWorkers)
+			mu.Lock()
+			for _, x := range resultsR {
+				if x != nil {
+					report(h, in, *x)
+				}
+			}
+			mu.Unlock()
+		}
 		// ---- a second fault during recovery (thorough) ----
 		if len(second) > 0 && !r.Expired() {
 			results2 := runJobs(r, fx, hs, func(hi int) ([]executionclient.BlockLogs, []int) { return infos[hi].blocks, infos[hi].stepBlk }, second, nWorkers)
@@ -730,6 +780,8 @@ func main() {
 	r.Set("distinct_restart_states", partial)
 	r.Set("runs_leaving_orphan_account_rows", orphanRuns)
 	r.Set("histories", len(hs))
+	r.Set("runs_through_real_setupEventHandling", realRuns)
+	r.Set("blocks_requested_by_real_resume", asked)
 	r.Set("rule", "for every history, every proxied Database/Txn/KeyManager call k of the uninterrupted run and every mode in {crash-before, crash-after, error-return}: run with the fault at k, restart on the same badger, resume from last processed block + 1, finish; thorough: for every distinct surviving database, every call of the recovery life x every mode as a second fault")
 	r.Set("bounds", bounds)
 	r.Set("distinct_outcomes", len(outcomes))
@@ -779,7 +831,8 @@ func runJobs(r *ev.Run, fx *reg.Fixture, hs []history, chain func(int) ([]execut
 				}
 				j := jobs[i]
 				b, s := chain(j.hi)
-				x := run.execute(&hs[j.hi], b, s, j.faults)
+				x := run.execute(&hs[j.hi], b, s, j.faults, j.realFrom)
+				x.real = j.realFrom >= 0
 				results[i] = &x
 			}
 			if run.db != nil {
@@ -818,8 +871,12 @@ func replay(r *ev.Run, fx *reg.Fixture) {
 	}
 	run := &runner{fx: fx}
 	blocks, stepBlk := buildChain(fx, h)
-	base := run.execute(h, blocks, stepBlk, nil)
-	x := run.execute(h, blocks, stepBlk, faults)
+	realFrom := -1
+	if v, ok := tr["real_from"].(float64); ok {
+		realFrom = int(v)
+	}
+	base := run.execute(h, blocks, stepBlk, nil, -1)
+	x := run.execute(h, blocks, stepBlk, faults, realFrom)
 	fmt.Println("history:", stepsDesc(h))
 	for i, f := range x.faults {
 		fmt.Printf("life %d: %s at call %d (%s) -> %s %s\n", i+1, f.mode, f.k, x.sites[i], x.ends[i], x.errs[i])
